@@ -14,7 +14,8 @@ from common import ImplError, frac, impl_call, s2l, short, unfrac
 
 ID = "C20"
 LEVEL = "proof"
-RULE = ("kinds: eval (prediction matrices up to 5x6, plus a few with 4099 ... 16389 experiments (thorough: up to 65539) "
+RULE = ("size regions: eval with 257 posterior samples in three unequal chains (thorough: 1000), evalio round trips of 7x64 and 3000x3 evaluations "
+        "(thorough: 3x1000, 4099x2) and of Fortran-ordered prediction matrices (what evaluate_model.main hands over).  kinds: eval (prediction matrices up to 5x6, plus a few with 4099 ... 16389 experiments (thorough: up to 65539) "
         "of multiples of 1/64; mostly short dyadic values, chain labellings: one chain / equal / "
         "unequal lengths / interleaved / non-contiguous labels; degenerate 0-row and 0-column matrices; constructor shape "
         "mismatches) through the real ModelEvaluation; evalio (real save_h5 + load_h5 in a temp dir); emap / earr / syn "
@@ -23,7 +24,13 @@ RULE = ("kinds: eval (prediction matrices up to 5x6, plus a few with 4099 ... 16
         "malformed stream) through create_single_treatment_effect_map / _array / calculate_synergy; earr_screen (ids produced "
         "by the real Screen from names and doses, Screen.single_treatment_effects); cmse (real Screen + stub thetas through "
         "retrospective.calculate_mse); space / corr (real Screen incl. several control rows in the mapping, stub thetas whose "
-        "prediction is a table of (sample id, treatment ids)) through generate_full_combinatoric_space / correlation_matrix. "
+        "prediction is a table of (sample id, treatment ids)) through generate_full_combinatoric_space / correlation_matrix; "
+        "report (the REPORTING site: cli/analyze_model_evaluation.main() run in-process on a temp dir holding a real screen file, 1-3 "
+        "ThetaHolder files of 1-12 real SparseDrugComboMCMCSample objects in a shuffled --thetas order and a ModelEvaluation file; the "
+        "five plotting functions are replaced by recorders, correlation_matrix by a recorder that forwards; predicate: the three numbers of "
+        "summary_statistics.json = the loop definitions on the saved evaluation, the similarity matrix is computed once, on the --screen "
+        "screen and on ALL posterior samples in chain-major argument order, and is the one plotted; every plot is drawn from the loaded "
+        "evaluation into the output directory). "
         "Non-trivial: at least one experiment and one theta / one row; distinct by canonical case description.")
 THEOREMS = {
     "C20_mse_def": "mse = (1/(n*m)) * sum over all (experiment i, posterior sample j) of (P[i][j]-o[i])^2 for every accepted evaluation, n,m >= 1; NaN (Err) when n = 0 or m = 0",
@@ -65,6 +72,9 @@ THEOREMS = {
     "C20_model_is_source_predict_viability_avg_nan": "predict_viability_avg, re-translated with NaN as a VALUE (floats are option Qc, every numpy operator lifted; Generated/SrcCorr.v), on the model's thetas f and a screen with one sample id and one id row per experiment gives, entry by entry, the model's avg_pred; without thetas every entry is 0 / 0 = NaN",
     "C20_model_is_source_correlation_matrix": "the translation of the WHOLE function models/main.py correlation_matrix, regenerated from /repo on this run (Generated/SrcCorr.v), equals the model correlation_matrix wrapped as the DataFrame (index, columns, values) with the sample names on both axes, for all screens and thetas: dict(zip(sample_ids, sample_names)), the loop over unique_sample_ids in increasing order (the TRANSLATED generate_full_combinatoric_space per sample, the TRANSLATED predict_viability_avg on that space, both appends, the name read from the dict), np.stack (ValueError without samples), np.mean(axis=0, keepdims) = the across-sample mean per combination, X = predictions - mu, np.sqrt(np.sum(np.square(X), axis=1, keepdims)) through the sqrt oracle, X / norm with 0 / 0 = NaN for a whole row, np.einsum('ik, jk->ij') of the normalised rows.  Hypotheses: the oracle's sqrt vanishes exactly at 0 on non-negative arguments (true of the real and the IEEE square root), key injective on the mapping's (name, dose) pairs",
     "C20_source_corr_symmetric": "hence, for the TRANSLATED correlation_matrix: the DataFrame's columns are its index and its values are symmetric (C20_corr_symmetric composed with the link)",
+    "C20_model_is_source_cli_analyze": "the translation of the WHOLE function cli/analyze_model_evaluation.main (Generated/SrcCliAnalyze.v), for every record of library functions and all parsed arguments, equals the model CliAnalyze.cli_analyze: the run as the ordered list of its effects on the output directory",
+    "C20_source_report_contents": "a run of the translated main() whose loads succeed creates the directory, plots the similarity matrix computed on the loaded --screen and the concatenation of ALL --thetas files in argument order, draws the four evaluation plots (99th percentile for the last) from the loaded --model-evaluation, and writes {mse: me.mse(), mse_variance: me.mse_variance(), inter_chain_mse_variance: me.inter_chain_mse_variance()} of that evaluation",
+    "C20_source_reported_summary_def": "the REPORTED numbers are the definitions: with the translated ModelEvaluation.mse / mse_variance / inter_chain_mse_variance as the library's methods, any summary the translated main() writes for a constructed evaluation holds the mean squared error over all (experiment, sample) pairs, its variance across experiments, and the variance of the per-chain MSEs (NaN without experiments or samples)",
     "C20_source_eval_save_load": "hence C20_eval_save_load holds of the translated source: for every evaluation the constructor builds (m = predictions.shape[1]; zero experiments, zero thetas, square matrices included) the translated load_h5 applied to what the translated save_h5 wrote returns the evaluation unchanged",
 }
 ASSUMPTIONS = [
@@ -81,7 +91,15 @@ EXPLANATION = ("Model: Model/Metrics.v, Model/Synergy.v, Model/Corr.v; definitio
                "the correlation matrix of a single-sample screen (or of samples with identical average predictions) is NaN; where a "
                "sample's average predictions equal the across-sample mean only up to rounding, the implementation returns normalised rounding "
                "noise instead of NaN (such entries, 0/0 over the reals, are not compared; feature fp-noise-where-undefined). "
-               "Not modelled: the CLI wrappers, predict_* other than predict_viability_avg. "
+               "Not modelled: the CLI wrappers other than analyze_model_evaluation.main, predict_* other than predict_viability_avg. "
+               "The reporting site analyze_model_evaluation.main is modelled (Model/CliAnalyze.v: a run = the ordered list of its effects: mkdir, five plots, "
+               "the JSON summary) and linked (CLI_ANALYZE -> Generated/SrcCliAnalyze.v, Proofs/C20SourceCli_Analyze.v).  Trusted there, one call each: "
+               "get_args() = the record of parsed arguments; ThetaHolder(n_thetas=1) only reaches load_h5 / concat; ThetaHolder.load_h5 / concat, "
+               "Screen.load_h5, ModelEvaluation.load_h5, correlation_matrix and the three metric methods = the components of the library record "
+               "(the theorems hold for every such record; C20_source_reported_summary_def instantiates the metric methods with their translations); "
+               "os.path.join(dir, <one of the six literal file names>) = the pair (dir, name); os.makedirs(d, exist_ok=True), the five plotting calls and "
+               "json.dump(d, f, indent=4) into open(path, 'w') = one event each; the dict literal with exactly the keys mse / mse_variance / "
+               "inter_chain_mse_variance = the summary record.  The report cases run the real main() and compare its events with the model's (wire op 8).  "
                "SOURCE LINK (C20_model_is_source_*): calculate_synergy (synergy.py), create_single_treatment_effect_map and "
                "create_single_treatment_effect_array (data.py) are re-translated as WHOLE functions into Gallina on every run "
                "(harness/py2gal.py, configurations C20_* of harness/src_functions.py -> coq/theories/Generated/SrcSynergy.v; a function "
@@ -426,6 +444,15 @@ def gen(rng, tier):
         yield _gen_eval(rng, "evalio")
     for n in ([4099, 8195, 16389, 9001] if k == 1 else [4099, 8195, 16389, 9001, 8192, 8193, 12289, 20001, 32771, 65539]):
         yield dict(kind="eval", big=[n, rng.choice([1, 2, 3]), rng.randrange(10 ** 6)])
+    # size regions: many posterior samples (three unequal chains), round trips of big evaluations, Fortran-ordered predictions
+    for n, m in ([(3, 257)] if k == 1 else [(3, 257), (3, 1000), (2, 65)]):
+        yield dict(kind="eval", big=[n, m, rng.randrange(10 ** 6)])
+    for n, m in ([(7, 64), (3000, 3)] if k == 1 else [(7, 64), (3000, 3), (3, 1000), (4099, 2)]):
+        yield dict(kind="evalio", big=[n, m, rng.randrange(10 ** 6)], order=rng.choice(["F", "F", "C"]))
+    for _ in range(12 * k):
+        d = _gen_eval(rng, "evalio")
+        d["order"] = "F"
+        yield d
     for _ in range(90 * k):
         yield _gen_ids(rng, "emap")
     for _ in range(60 * k):
@@ -453,6 +480,26 @@ def gen(rng, tier):
                  A=[[rng.randint(0, 8) for _ in range(4)] for _ in range(3)],
                  B=[[rng.randint(0, 8) for _ in range(9)] for _ in range(4)], remap=_gen_remap(rng))
         yield d
+    # the reporting site: analyze_model_evaluation.main() on real files
+    for _ in range(24 * k):
+        yield _gen_report(rng)
+
+
+def _gen_report(rng):
+    """a run of the analysis command: a real screen, 1..3 chain files of real posterior samples in some argument order, an
+    evaluation file (any prediction matrix / chain labelling the constructor accepts, at least one experiment and one column)"""
+    scr = _gen_screen(rng, arity=2, nmax=7, min_samples=rng.choice([2, 2, 3]))
+    while True:
+        ev = _gen_eval(rng, "report")
+        if ev["preds"] and ev["m"] > 0 and not ev["chain_mode"].startswith("mismatch"):
+            break
+    nch = rng.choice([1, 2, 2, 3])
+    chains = [rng.choice([1, 2, 3, rng.randint(1, 12)]) for _ in range(nch)]
+    order = list(range(nch))
+    rng.shuffle(order)
+    return dict(kind="report", screen=scr, scr_obs=[_val(rng, 0, 1.25) for _ in scr["samples"]],
+                m=ev["m"], preds=ev["preds"], obs=ev["obs"], chains=ev["chains"], names=ev["names"], chain_mode=ev["chain_mode"],
+                theta_chains=chains, order=order, D=rng.choice([1, 2, 3]), vseed=rng.getrandbits(32), seed_arg=rng.choice([None, 0, 7]))
 
 
 # --------------------------------------------------------------------------- implementation adapters
@@ -540,6 +587,9 @@ def _run_eval(desc):
     if len(set(chains)) > 1 and len({chains.count(c) for c in set(chains)}) > 1:
         feats.append("unequal-chain-lengths")
     P = np.array(preds, dtype=float).reshape(n, m)
+    if desc.get("order") == "F":       # what the one producer (evaluate_model.main: predict_viability_all(...).T) hands over
+        P = np.ascontiguousarray(P.T).T
+        feats.append("predictions-F-ordered")
     o = np.array(obs, dtype=float)
     c = np.array(chains, dtype=int)
     nm = np.array(names, dtype=str) if names else np.array([], dtype=str)
@@ -1107,6 +1157,243 @@ def _run_corr(desc):
     return dict(wire=[7, mapping, smap, a, nth, rows, table], impl=impl, pred=pred, features=feats, cmp=cmp)
 
 
+# ---- the reporting site: cli/analyze_model_evaluation.main() run in-process on real files
+
+
+def _report_thetas(desc, scr):
+    """per chain file: real SparseDrugComboMCMCSample objects sized for the screen, moderate dyadic parameters"""
+    import random as _random
+    from batchie.core import ThetaHolder
+    from batchie.models.sparse_combo import SparseDrugComboMCMCSample
+    g = _random.Random(desc["vseed"])
+    ns = max([int(x) for x in scr.sample_mapping[1]] + [0]) + 1
+    nt = max([int(x) for x in scr.treatment_mapping[2]] + [0]) + 1
+    D = desc["D"]
+
+    def arr(*shape):
+        n = int(np.prod(shape))
+        return np.array([g.randint(-24, 24) / 16.0 for _ in range(n)], dtype=np.float64).reshape(shape)
+    holders = []
+    for n in desc["theta_chains"]:
+        h = ThetaHolder(n)
+        for _ in range(n):
+            h.add_theta(SparseDrugComboMCMCSample(W=arr(ns, D), W0=arr(ns), V2=arr(nt, D), V1=arr(nt, D), V0=arr(nt),
+                                                  alpha=g.randint(-8, 8) / 16.0, precision=g.randint(1, 64) / 8.0))
+        holders.append(h)
+    return holders
+
+
+def _theta_key(t):
+    return tuple((k, np.asarray(getattr(t, k), dtype=np.float64).shape, np.asarray(getattr(t, k), dtype=np.float64).tobytes())
+                 for k in ("W", "W0", "V2", "V1", "V0", "alpha", "precision"))
+
+
+def _screen_key(s):
+    return ([int(x) for x in s.sample_ids], [[int(x) for x in r] for r in s.treatment_ids], [str(x) for x in s.sample_names],
+            [[str(x) for x in r] for r in s.treatment_names], [[float(x) for x in r] for r in s.treatment_doses],
+            [[str(x) for x in s.treatment_mapping[0]], [float(x) for x in s.treatment_mapping[1]], [int(x) for x in s.treatment_mapping[2]]],
+            [[str(x) for x in s.sample_mapping[0]], [int(x) for x in s.sample_mapping[1]]])
+
+
+def _eval_key(e):
+    return (np.asarray(e.predictions, dtype=float).shape, np.asarray(e.predictions, dtype=float).tobytes(),
+            np.asarray(e.observations, dtype=float).tobytes(), [int(x) for x in e.chain_ids], [str(x) for x in e.sample_names])
+
+
+PLOTS = [("plot_correlation_heatmap", "sample_prediction_correlation.pdf", None),
+         ("predicted_vs_observed_scatterplot", "predicted_vs_observed_scatterplot.pdf", None),
+         ("predicted_vs_observed_scatterplot_per_sample", "predicted_vs_observed_by_sample_scatterplot.pdf", None),
+         ("per_sample_violin_plot", "per_sample_violin_plot.pdf", None),
+         ("per_sample_violin_plot", "per_sample_violin_plot__99th_percentiles.pdf", 99)]
+
+
+def _run_report(desc):
+    import contextlib
+    import inspect
+    import io
+    import json
+    import logging
+    import sys
+    from batchie.cli import analyze_model_evaluation as ame
+    from batchie.core import ThetaHolder
+    from batchie.models.main import ModelEvaluation
+    from batchie.models import main as models_main
+    real_corr = models_main.correlation_matrix
+    m, preds, obs, chains, names = desc["m"], desc["preds"], desc["obs"], desc["chains"], desc["names"]
+    n = len(preds)
+    order = desc["order"]
+    feats = ["report", "chains:" + desc["chain_mode"], "theta-files:%d" % len(order)]
+    if order != sorted(order):
+        feats.append("shuffled-argument-order")
+    if len(set(chains)) > 1 and len({chains.count(c) for c in set(chains)}) > 1:
+        feats.append("unequal-chain-lengths")
+    base, nxt = [], 0
+    for nth in desc["theta_chains"]:
+        base.append(nxt)
+        nxt += nth
+    wire = [8, m, [[frac(x) for x in r] for r in preds], [frac(x) for x in obs], chains, [s2l(x) for x in names],
+            [[base[c] + j for j in range(desc["theta_chains"][c])] for c in order]]
+    d = _tmpdir()
+    rec = dict(corr_calls=[], plots=[])
+    try:
+        with warnings.catch_warnings():
+            warnings.simplefilter("ignore")
+            scr = _screen(desc["screen"], obs=desc["scr_obs"])
+            holders = _report_thetas(desc, scr)
+            scr.save_h5(os.path.join(d, "screen.h5"))
+            files = []
+            for c, h in enumerate(holders):
+                fn = os.path.join(d, "chain_%d.h5" % c)
+                h.save_h5(fn)
+                files.append(fn)
+            ev = ModelEvaluation(predictions=np.array(preds, dtype=float).reshape(n, m), observations=np.array(obs, dtype=float),
+                                 chain_ids=np.array(chains, dtype=int), sample_names=np.array(names, dtype=str))
+            ev.save_h5(os.path.join(d, "me.h5"))
+        outdir = os.path.join(d, "out", "analysis")     # does not exist yet: main() must create it
+        argv = ["analyze_model_evaluation", "--model-evaluation", os.path.join(d, "me.h5"), "--screen", os.path.join(d, "screen.h5"),
+                "--thetas"] + [files[c] for c in order] + ["--output-dir", outdir]
+        if desc.get("seed_arg") is not None:
+            argv += ["--seed", str(desc["seed_arg"])]
+
+        def corr_recorder(*a, **kw):
+            out = real_corr(*a, **kw)
+            rec["corr_calls"].append((a, kw, out))
+            return out
+
+        def plot_recorder(name):
+            def f(*a, **kw):
+                rec["plots"].append((name, a, kw))
+            return f
+
+        def go():
+            lg = logging.getLogger("batchie")
+            old_handlers, old_level, old_argv = lg.handlers[:], lg.level, sys.argv
+            saved = {nm: getattr(ame.plotting, nm) for nm in {p[0] for p in PLOTS}}
+            saved_corr = ame.correlation_matrix
+            sys.argv = argv
+            try:
+                for nm in saved:
+                    setattr(ame.plotting, nm, plot_recorder(nm))
+                ame.correlation_matrix = corr_recorder
+                with contextlib.redirect_stderr(io.StringIO()), contextlib.redirect_stdout(io.StringIO()), warnings.catch_warnings():
+                    warnings.simplefilter("ignore")
+                    ame.main()
+            finally:
+                sys.argv = old_argv
+                ame.correlation_matrix = saved_corr
+                for nm, fn in saved.items():
+                    setattr(ame.plotting, nm, fn)
+                lg.handlers[:] = old_handlers
+                lg.setLevel(old_level)
+            with open(os.path.join(outdir, "summary_statistics.json")) as f:
+                return json.load(f)
+        out = impl_call(go)
+        pred = None
+        if isinstance(out, ImplError):
+            impl = out
+            pred = "analyze_model_evaluation.main() did not write its report on well-formed files: %r" % (out,)
+        else:
+            impl = [_fl(out.get("mse", float("nan"))), _fl(out.get("mse_variance", float("nan"))),
+                    _fl(out.get("inter_chain_mse_variance", float("nan")))]
+            # the run as the list of its events (the model's vocabulary, Model/CliAnalyze.v)
+            number = {}
+            for c, h in enumerate(holders):
+                for j, t in enumerate(h.thetas):
+                    number.setdefault(_theta_key(t), base[c] + j)
+            codes = {p_[1]: i for i, p_ in enumerate(PLOTS)}
+            tags = {"predicted_vs_observed_scatterplot": 2, "predicted_vs_observed_scatterplot_per_sample": 3}
+            events = [[0]] if os.path.isdir(outdir) else []
+            for nm_, a_, kw_ in rec["plots"]:
+                code = codes.get(os.path.basename(str(a_[1])) if len(a_) > 1 else None, -1)
+                if nm_ == "plot_correlation_heatmap":
+                    src = [cc for cc in rec["corr_calls"] if a_ and cc[2] is a_[0]]
+                    try:
+                        th_ = inspect.signature(real_corr).bind(*src[0][0], **src[0][1]).arguments["thetas"]
+                        nums = [number.get(_theta_key(th_.get_theta(i)), -1) for i in range(th_.n_thetas)]
+                    except Exception:       # noqa: BLE001
+                        nums = [-1]
+                    events.append([1, code, nums])
+                elif nm_ in tags:
+                    events.append([tags[nm_], code])
+                else:
+                    events.append([4, code, [kw_["percentile"]] if "percentile" in kw_ else []])
+            events.append([5, 5] + impl)
+            # the property's definitions by plain loops over exact rationals, on the evaluation that was saved
+            sq = [[(_F(preds[i][j]) - _F(obs[i])) ** 2 for j in range(m)] for i in range(n)]
+            tot = Fraction(0)
+            for i in range(n):
+                for j in range(m):
+                    tot += sq[i][j]
+            mse_def = tot / (n * m)
+            var_def = _var([sum(sq[i], Fraction(0)) / m for i in range(n)])
+            per_chain = []
+            for cid in sorted(set(chains)):
+                cols = [j for j in range(m) if chains[j] == cid]
+                per_chain.append(sum((sq[i][j] for i in range(n) for j in cols), Fraction(0)) / (n * len(cols)))
+            ic_def = _var(per_chain)
+            want_thetas = [_theta_key(t) for c in order for t in holders[c].thetas]
+            if sorted(out.keys()) != ["inter_chain_mse_variance", "mse", "mse_variance"]:
+                pred = "the report's keys are %r" % (sorted(out.keys()),)
+            elif impl[0] == NAN or not _near(impl[0], mse_def):
+                pred = "reported mse %r is not the mean squared error over all (experiment, sample) pairs %r" % (impl[0], float(mse_def))
+            elif impl[1] == NAN or not _near(impl[1], var_def):
+                pred = "reported mse_variance %r is not the variance across experiments of the per-experiment MSE %r" % (impl[1], float(var_def))
+            elif impl[2] == NAN or not _near(impl[2], ic_def):
+                pred = "reported inter_chain_mse_variance %r is not the variance of the per-chain MSEs %r" % (impl[2], float(ic_def))
+            elif len(rec["corr_calls"]) != 1:
+                pred = "the similarity matrix was computed %d times" % len(rec["corr_calls"])
+            else:
+                a, kw, cm = rec["corr_calls"][0]
+                bound = inspect.signature(real_corr).bind(*a, **kw).arguments
+                cs, ct = bound.get("screen"), bound.get("thetas")
+                try:
+                    got_thetas = [_theta_key(ct.get_theta(i)) for i in range(ct.n_thetas)]
+                except Exception as e:      # noqa: BLE001
+                    got_thetas = "unreadable: %r" % (e,)
+                if cs is None or _screen_key(cs) != _screen_key(scr):
+                    pred = "the similarity matrix is not computed on the screen named by --screen (with its own ids)"
+                elif got_thetas != want_thetas:
+                    pred = ("the similarity matrix is not computed from all posterior samples of all --thetas files in chain-major argument "
+                            "order (%s samples instead of %d)" % (len(got_thetas) if isinstance(got_thetas, list) else got_thetas, len(want_thetas)))
+                else:
+                    heat = [pl for pl in rec["plots"] if pl[0] == "plot_correlation_heatmap"]
+                    if len(heat) != 1 or not heat[0][1] or heat[0][1][0] is not cm:
+                        pred = "the plotted similarity matrix is not the one computed by correlation_matrix"
+            if pred is None:
+                ek = _eval_key(ev)
+                for nm, fname, pct in PLOTS:
+                    hit = [pl for pl in rec["plots"] if pl[0] == nm and len(pl[1]) >= 2 and os.path.basename(str(pl[1][1])) == fname]
+                    if len(hit) != 1 or os.path.dirname(str(hit[0][1][1])) != outdir:
+                        pred = "the report does not contain %s exactly once in the output directory" % fname
+                        break
+                    if nm != "plot_correlation_heatmap":
+                        if not isinstance(hit[0][1][0], ModelEvaluation) or _eval_key(hit[0][1][0]) != ek:
+                            pred = "%s is not drawn from the evaluation named by --model-evaluation" % fname
+                            break
+                        if hit[0][2].get("percentile") != pct and not (pct is None and "percentile" not in hit[0][2]):
+                            pred = "%s drawn with percentile %r" % (fname, hit[0][2].get("percentile"))
+                            break
+    finally:
+        shutil.rmtree(d, ignore_errors=True)
+
+    def cmp(mo, i):
+        def inner(mv, iv):
+            if [e[:2] for e in mv] != [e[:2] for e in iv]:
+                return "events of the run differ: model %s impl %s" % (short([e[:2] for e in mv]), short([e[:2] for e in iv]))
+            for me_, ie in zip(mv, iv):
+                if me_[0] == 5:
+                    for k, what in enumerate(["mse", "mse_variance", "inter_chain"]):
+                        dd = _res(me_[2 + k], ie[2 + k], _q(what))
+                        if dd:
+                            return "reported " + what + ": " + dd
+                elif me_[2:] != ie[2:]:
+                    return "event %s: model %s impl %s" % (me_[:2], short(me_[2:]), short(ie[2:]))
+            return None
+        return _res(mo, i, inner)
+    return dict(wire=wire, impl=impl if isinstance(impl, ImplError) else events, pred=pred, features=feats, cmp=cmp)
+
+
+
 def _expand_big(desc):
     """big = [n, m, seed]: an evaluation with thousands of experiments, written compactly; values are multiples of 1/64
     (exact in binary and cheap as rationals)"""
@@ -1116,15 +1403,21 @@ def _expand_big(desc):
     preds = [[g.randrange(0, 97) / 64.0 for _ in range(m)] for _ in range(n)]
     obs = [g.randrange(0, 97) / 64.0 for _ in range(n)]
     chains = [j % 2 for j in range(m)] if m > 1 else [0] * m
-    return dict(kind="eval", m=m, preds=preds, obs=obs, chains=chains, names=["s%d" % (i % 7) for i in range(n)],
-                chain_mode="interleaved" if m > 1 else "one", big=desc["big"])
+    mode = "interleaved" if m > 1 else "one"
+    if m >= 64:        # many posterior samples: three chains of unequal length, in chain-major order
+        c1, c2 = m // 4, m // 4 + m // 2 + 1
+        chains = [0 if j < c1 else (1 if j < c2 else 2) for j in range(m)]
+        mode = "unequal"
+    return dict(kind=desc["kind"], m=m, preds=preds, obs=obs, chains=chains, names=["s%d" % (i % 7) for i in range(n)],
+                chain_mode=mode, big=desc["big"], order=desc.get("order"))
 
 
 def run(desc):
     k = desc["kind"]
     if "big" in desc and "preds" not in desc:
         r = _run_eval(_expand_big(desc))
-        r["features"] = list(r["features"]) + ["thousands-of-experiments"]
+        n_, m_, _s = desc["big"]
+        r["features"] = list(r["features"]) + (["thousands-of-experiments"] if n_ >= 1000 else []) + (["posterior-samples>=%d" % (64 if m_ < 257 else 257)] if m_ >= 64 else [])
         return r
     if k in ("eval", "evalio"):
         return _run_eval(desc)
@@ -1142,6 +1435,8 @@ def run(desc):
         return _run_space(desc)
     if k == "corr":
         return _run_corr(desc)
+    if k == "report":
+        return _run_report(desc)
     raise ValueError(k)
 
 
@@ -1173,4 +1468,8 @@ def shrink(desc):
 
 
 def signature(desc, res):
-    return "%s:%s" % (desc.get("kind"), (res.get("pred") or res.get("disagree") or "")[:40])
+    text = res.get("pred") or res.get("disagree") or ""
+    if desc.get("kind") == "report":       # one report per clause, not one per reported value
+        import re
+        text = re.sub(r"[-+]?[0-9][0-9.e+-]*", "#", text)
+    return "%s:%s" % (desc.get("kind"), text[:40])
